@@ -327,6 +327,10 @@ def disc_module(E):
         lines.append("impl %s {" % n)
         lines += ["    " + m for m in D.DECOYS["EnumDiscriminants"]]
         lines.append("}")
+    if E["id"] % 3 == 1 and n.lower() != n:
+        # a second enum in the same module whose snake_case name coincides with this one's (`E7` / `e7`): whatever helper items the
+        # derive generates for the two must not collide
+        lines += ["#[derive(Debug, Clone, PartialEq, strum::EnumDiscriminants)]", "pub enum %s { First(u8), Second }" % n.lower()]
     # reference enum for the layout clause: same repr lines, same discriminants, no fields
     lines += ["#[repr(%s)]" % r for r in E["reprs"]]
     lines.append("pub enum Ref%d {" % E["id"])
